@@ -84,10 +84,17 @@ def run_case(chk: Check, case: dict, seed: int, style: int, wav_sink=None):
 
 
 def cases_for(chk: Check, thorough: bool):
-    binlens = {2352, 2353, 2355, 2356, 4703} if not thorough else {4, 2352, 2353, 2354, 2355, 2356, 4700, 4703, 7056}
-    res = chk.run_model(model(3 if thorough else 2, TIMES_T if thorough else TIMES_Q, binlens),
-                        label=f"design: all sheets of <= {3 if thorough else 2} tracks x insertions x bin lengths", timeout_s=3000)
-    return res.cases
+    if not thorough:
+        res = chk.run_model(model(2, TIMES_Q, {2352, 2353, 2355, 2356, 4703}),
+                            label="design: all sheets of <= 2 tracks x insertions x bin lengths", timeout_s=3000)
+        return res.cases
+    # thorough: 3 tracks over the carry-crossing times, and 2 tracks over the long times (01:00:00) with many bin lengths;
+    # decorations are C17's subject: none here, so that the state space stays in the hundreds of thousands
+    r1 = chk.run_model(model(3, TIMES_Q, {2352, 2353, 2355, 4703}, others=()), label="design: all sheets of <= 3 tracks x blank insertions x bin lengths",
+                       timeout_s=3000, heap="8g")
+    r2 = chk.run_model(model(2, TIMES_T, {4, 2352, 2353, 2354, 2355, 2356, 4700, 4703, 7056}), label="design: <= 2 tracks, long index times, 9 bin lengths",
+                       timeout_s=3000, heap="8g")
+    return r1.cases + r2.cases
 
 
 def run(chk: Check):
